@@ -250,7 +250,7 @@ def worker (s : MacState) (i : Nat) (w : Worker) (t : Nat) (a : Ans) : MacState 
         let (calls, found) := scanCanM a.cans s.cfg.nout
         match found with
         | some j =>
-          let s1 := s.updRep t
+          let s1 := ({ s with outsel := s.outsel ++ [j] }).updRep t
           let w1 := { w with blocked := true }
           let s2 := (s1.setWorker i w1).updRep t
           let (s3, c) := s2.spawnPush i w1 j true
